@@ -2,6 +2,8 @@ package props
 
 import (
 	"context"
+	"github.com/skx/evalfilter/v2/lexer"
+	"github.com/skx/evalfilter/v2/token"
 	"time"
 
 	"bytes"
@@ -508,3 +510,19 @@ func rapidCheck(t *testing.T, col *evid.Collector, prop func(*rapid.T)) {
 type objectT = object.Object
 
 func jsonUnmarshal(raw []byte, v interface{}) error { return json.Unmarshal(raw, v) }
+
+func sortStrings(s []string) { sort.Strings(s) }
+
+// lexSrcToks re-spells the tokens of a script (canonical text per token).
+func lexSrcToks(src string) []string {
+	var out []string
+	l := lexer.New(src)
+	for i := 0; i < 200000; i++ {
+		tk := l.NextToken()
+		if tk.Type == token.EOF || tk.Type == token.ILLEGAL {
+			break
+		}
+		out = append(out, tokenText(tk))
+	}
+	return out
+}
